@@ -143,6 +143,10 @@ impl<T: Write + Read + Seek> E57Writer<T> {
         };
         self.writer.physical_seek(0)?;
         header.write(&mut self.writer)?;
+
+        // Go back to the end of the file, otherwise anything written after
+        // this point would overwrite the data that follows the file header.
+        self.writer.physical_seek(phys_length)?;
         self.writer
             .flush()
             .write_err("Failed to flush writer at the end")
